@@ -126,7 +126,7 @@ loop:
 			s = skipSpace(s)
 			if strings.HasPrefix(s, ";") {
 				s = skipSpace(s[1:])
-				if !strings.HasPrefix(s, "q=") {
+				if !strings.HasPrefix(s, "q=") && !strings.HasPrefix(s, "Q=") {
 					continue loop
 				}
 				spec.Q, s = expectQuality(s[2:])
